@@ -243,6 +243,9 @@ func (p *Path) conv(dst, src types.Type, x Value) Value {
 	switch ud := ud.(type) {
 	case *types.Slice:
 		// string -> []byte / []rune
+		if bl, ok := x.(*Blob); ok {
+			return bl // opaque strings built from blobs convert back to the blob
+		}
 		if isString(src) {
 			eb, _ := ud.Elem().Underlying().(*types.Basic)
 			if eb != nil && eb.Kind() == types.Uint8 {
